@@ -104,10 +104,10 @@ pub fn boundary_cases() -> Vec<Vec<Entry>> {
 pub fn run(o: &Opts) {
     let mut st = Stats::new();
     let mut sh = Shards::new(&o.out, o.shards, &header("Classify_C01"));
-    st.rule = "ledger text generated from a tree (1-5 transactions of 1-6 postings; explicit/omitted/assigned amounts; 1-3 of 5 commodities; zero and negative values; @/@@ costs; {}/{{}} lots, one in eight written with a minus sign; parenthesised expressions; format declarations; sums on half-unit rounding boundaries) plus an enumerated boundary set (residual shape x sign x rounding); run through report::process on a FakeFileSystem; non-trivial = the deciding transaction reached check_balance or amount deduction; distinct by ledger text".into();
+    st.rule = "ledger text generated from a tree (1-5 transactions of 1-6 postings; explicit/omitted/assigned amounts; 1-3 of 5 commodities; zero and negative values; @/@@ costs; {}/{{}} lots, one in eight written with a minus sign; parenthesised expressions, about one term in eight divided by a number without a finite reciprocal (3, 6, 7, 9, 11, 12, 13, 0.3, 0.07, 15, 21, 1.4) with the dividend - a literal, `term * d`, or a sum - an exact multiple of it (counted as cases_with:exact_division_by_number_without_finite_reciprocal); format declarations; sums on half-unit rounding boundaries) plus an enumerated boundary set (residual shape x sign x rounding); run through report::process on a FakeFileSystem; non-trivial = the deciding transaction reached check_balance or amount deduction; distinct by ledger text".into();
     st.rule = format!("{}; {}", st.rule, TEXT_SHAPES_RULE);
     st.assumptions.push("no total price (@@, {{}}) on an amount that is a zero produced by an expression (rust_decimal keeps a sign bit on zero that the exact-rational model does not represent)".into());
-    st.assumptions.push("literal mantissas below 10^7 with scale <= 3, products of at most three factors: every intermediate Decimal is exact".into());
+    st.assumptions.push("literal mantissas below 10^7 with scale <= 3, products of at most three factors, quotients exact by construction: every intermediate Decimal is exact".into());
     let (corpus, replay) = corpus_entries(&o.corpus, &o.extra);
     for es in corpus {
         emit_ledger_case(&mut sh, &mut st, "C01", &es, &nontrivial, "corpus");
